@@ -54,6 +54,7 @@ REVERTS = [
     ('F55-<crypto', '857e232', {'C04': ['narrow-sum:<crypto::checksum::SimpleChecksum as std::hash::Hasher>::write#1']}),
     ('F56-nesting-depth-bounded', 'cb753fd', {'C04': ['focus:nesting-depth-bounded']}),
     ('F57-output-index-guarded', '6b579e5', {'C09': ['read:output-index-guarded:<base64::reader::Base64Reader<R> as std::io::Read>::read']}),
+    ('F58-image-header-unknown-version', 'd1a0ebc', {'C05': ['S05-14:image-header-length-formula']}),
     ('F23-boolean-subpackets', '1b5ba7a', {'C05': ['S05-8:lossless-bool'], 'C02': ['S05-8:lossless-bool']}),
 ]
 tests = [dict(name='revert:' + n, kind='revert-fix', commit=c, expect=e) for n, c, e in REVERTS]
